@@ -9,12 +9,15 @@
    finished; the change settles in Error with no task pending.
    PROVED BELOW, over all graphs and all event lists: the undo-order half (fresh starts) and the status mapping of
    every abort (nothing is ever rewritten except Do->Hold, Doing->Abort, Done->Undo).
+   Also proved: the model's fuel bounds are never hit (C01_abort_fuel), no task is stranded (C01_no_deadlock), the
+   failing task ends in Error, a settled change with a failed task reports Error.
    NOT PROVED (monitored on every observed history instead, see notes/C01.md): the closure sandwich (which tasks are
-   aborted: lower closure R' must be mapped, nothing outside the upper closure R is touched), settling in Error
-   (liveness), and the outcome table of the settled state. *)
-From Coq Require Import List NArith ZArith Bool.
+   aborted: lower closure R' must be mapped, nothing outside the upper closure R is touched), settling (liveness: that
+   finitely many Ensure/Finish events reach an all-ready state), and the outcome table of the settled state. *)
+From Coq Require Import List NArith ZArith Bool Lia.
 Import ListNotations.
-Require Import V.models.TaskEngine V.proofs.TaskEngineProofs V.proofs.TaskEngineStatus.
+Require Import V.models.TaskEngine V.proofs.TaskEngineProofs V.proofs.TaskEngineStatus V.proofs.TaskEngineReady
+               V.proofs.TaskEngineDoing V.proofs.TaskEngineFuel V.proofs.TaskEngineLive.
 
 (* reverse-order undo: in every execution, whenever an undo handler is freshly started (Undo->Undoing), every task
    that waited on it had a ready status (Done/Undone/Hold/Error) at that instant, i.e. had finished or never ran *)
@@ -53,6 +56,66 @@ Theorem C01_user_abort_mapping : forall (s : state) (u : nat),
   abort_map_ok (st s u) (st (abort_change s) u) = true.
 Proof. exact abort_change_mapping. Qed.
 Print Assumptions C01_user_abort_mapping.
+
+(* C01_abort_fuel: the abort recursion terminates within the model's fuel bounds - the worklist loop of abortTasks
+   because every iteration drops a seen element or marks a new task seen, the abortLanes/abortTasks nesting because
+   every nested abortLanes call kills a lane that was not killed before. Every graph, every event list. *)
+Theorem C01_abort_fuel : forall (g : list tdesc) (es : list event), oof (run_events (init_state g) es) = false.
+Proof. exact oof_never. Qed.
+Print Assumptions C01_abort_fuel.
+
+(* C01_no_deadlock: no task is stranded. For every non-empty closed graph whose wait edges are acyclic (rk is a
+   topological rank: the generator draws the edges along a topological order), every history in which user aborts hit
+   unready changes only and a do handler that answers Wait waits to become Done (tame): in the reached state, if no
+   handler is running, no task sits in Wait and no task is scheduled for later, then either every task is ready or
+   the body of the Ensure loop FIRES for some task t of the change: it writes t's status or starts t's handler.
+   PARTIAL in one respect: stated for the loop body of one task, not for a whole pass (that later iterations of the
+   same pass cannot revert the effect is not proved). *)
+Theorem C01_no_deadlock : forall (g : list tdesc) (rk : nat -> nat) (es : list event),
+  g <> [] -> closed g -> (forall t w, In w (waits_g g t) -> rk w < rk t) ->
+  tame (init_state g) es ->
+  let s := run_events (init_state g) es in
+  running s = [] -> (forall t, st s t <> Wait) -> (forall t, gate_open s t = true) ->
+  all_ready (tasks s) = true \/
+  exists t, t < length (tasks s) /\ (st (ensure_one s t) t <> st s t \/ In t (running (ensure_one s t))).
+Proof. exact no_deadlock_total. Qed.
+Print Assumptions C01_no_deadlock.
+
+(* the error path: when the handler of a running task returns an error, that task ends in Error (and nothing panics) *)
+Theorem C01_failed_task_ends_in_error : forall (s : state) (t : nat),
+  inv s -> In t (running s) -> st (finish s t OErr) t = Error /\ panicked (finish s t OErr) = false.
+Proof. exact finish_err_sets_error. Qed.
+Print Assumptions C01_failed_task_ends_in_error.
+
+(* C01_settles_error, PARTIAL: the safety half - whenever every task is ready and some task is in Error, the change
+   reports Error. The liveness half (every history can be extended to such a state) is not proved; C01_no_deadlock
+   is the progress step such a measure argument needs. *)
+Theorem C01_settled_status_error_partial : forall l : list task,
+  all_ready l = true -> has_status l Error = true -> change_status l = Error.
+Proof. exact settled_error_status. Qed.
+Print Assumptions C01_settled_status_error_partial.
+
+(* non-vacuity of the hypotheses of C01_no_deadlock: a tame history on an acyclic closed graph that reaches a state
+   with no tomb in which a task waits in Undo and the Ensure loop body fires for it *)
+Example C01_no_deadlock_nonvacuous :
+  let g := [([], [], true); ([], [0], true)] in
+  let es := [Ensure [0;1]; Finish 0 OOk; Ensure [0;1]; Finish 1 OErr] in
+  closed g /\ (forall t w, In w (waits_g g t) -> (fun x => x) w < (fun x => x) t) /\ tame (init_state g) es /\
+  running (run_events (init_state g) es) = [] /\ map t_st (tasks (run_events (init_state g) es)) = [Undo; Error].
+Proof.
+  split; [|split; [|split; [|split]]].
+  - intros t w H. unfold waits_g in H. destruct t as [|[|t]]; simpl in H.
+    + destruct H.
+    + destruct H as [<-|[]]. simpl. lia.
+    + destruct t; simpl in H; destruct H.
+  - intros t w H. unfold waits_g in H. destruct t as [|[|t]]; simpl in H.
+    + destruct H.
+    + destruct H as [<-|[]]. lia.
+    + destruct t; simpl in H; destruct H.
+  - vm_compute. repeat split; intros; try discriminate.
+  - vm_compute. reflexivity.
+  - vm_compute. reflexivity.
+Qed.
 
 (* non-vacuity: lanes 1 and 2, chain 0 <- 1 in lane 1, task 2 alone in lane 2; task 1 fails: 0 is undone,
    1 is in Error, the healthy lane 2 completes, the change ends in Error *)
